@@ -211,6 +211,23 @@ pub fn to_scanner_modes(modes: &[RealMode]) -> Vec<ScannerMode> {
     modes_with(modes, crate::ttmap::conc)
 }
 
+/// Builds a scanner through one of the public construction paths, rotating over them by the
+/// shape of the configuration: `add_scanner_modes`, one `add_scanner_mode` per mode, and (uncached
+/// only) `Scanner::try_from(Vec<ScannerMode>)`.
+pub fn build_via(sm: &[ScannerMode], cached: bool) -> scnr::Result<scnr::Scanner> {
+    let variant = sm.len() + sm.iter().map(|m| m.name().len()).sum::<usize>() + format!("{:?}", sm.first()).len();
+    let folded = || sm.iter().fold(ScannerBuilder::new(), |b, m| b.add_scanner_mode(m.clone()));
+    if cached {
+        if variant % 2 == 0 { ScannerBuilder::new().add_scanner_modes(sm).build() } else { folded().build() }
+    } else {
+        match variant % 3 {
+            0 => ScannerBuilder::new().add_scanner_modes(sm).build_uncached(),
+            1 => folded().build_uncached(),
+            _ => scnr::Scanner::try_from(sm.to_vec()),
+        }
+    }
+}
+
 /// The modes with the token types as written (automaton-level legs: dump, DOT export)
 pub fn to_scanner_modes_raw(modes: &[RealMode]) -> Vec<ScannerMode> {
     modes_with(modes, |t| t)
@@ -229,7 +246,7 @@ fn modes_with(modes: &[RealMode], f: fn(usize) -> usize) -> Vec<ScannerMode> {
                         None => q,
                     }
                 }),
-                m.trans.iter().map(|(t, m)| (f(*t), *m)).collect::<Vec<_>>(),
+                { let mut tr = m.trans.iter().map(|(t, m)| (f(*t), *m)).collect::<Vec<_>>(); tr.sort(); tr },
             )
         })
         .collect()
